@@ -238,6 +238,22 @@ def oracle(ctx, hints, effort):
         if r is not None:
             key = f"{r[0]}:{sub['kind']}"
             findings.setdefault(key, Finding(key, f"{r[0]} violated over a {sub['kind']} boundary", {"scene": sc, "seed": sd_}, r[1], r[2]))
+    # adjacent layers of the same density (no reflection between them) at different temperatures, grain sizes differing or not
+    for j in range(2 if effort == "routine" else 6):
+        dens_ = round(float(rng.uniform(200, 400)), 1)
+        cls_ = [round(float(v), 7) for v in rng.uniform(8e-5, 3e-4, 3)] if j % 2 == 0 else [1.5e-4] * 3
+        sc = dict(thickness=[round(float(v), 3) for v in rng.uniform(0.1, 0.6, 3)], density=[dens_] * 3, temperature=[250.0, 260.0, 240.0],
+                  microstructure="exponential", frequency=37e9, micro=dict(corr_length=cls_), ice_permittivity=[3.18, 2e-3],
+                  substrate=dict(kind="soil_wegmuller", T=265.0, eps=[10.0, 1.0], params=dict(roughness_rms=0.01)), emmodel="iba", nmax=16)
+        sd_ = int(rng.integers(0, 2**31))
+        try:
+            evals += 8
+            r = check_linear(sc, sd_)
+        except (AssertionError, Warning):
+            continue
+        if r is not None:
+            key = f"{r[0]}:equal-density-layers"
+            findings.setdefault(key, Finding(key, f"{r[0]} violated for three layers of equal density at different temperatures", {"scene": sc, "seed": sd_}, r[1], r[2]))
     n = 4 if effort == "routine" else 40
     for i in range(-1, n):
         em, ms = pC01.PAIRINGS[i % (3 if effort == "routine" else len(pC01.PAIRINGS))]
